@@ -428,7 +428,8 @@ pub fn master_main(check: &'static dyn Check, ctx: Ctx) -> i32 {
     let mut known_lines = Vec::new();
     let mut witness_results = Vec::new();
     for f in &open {
-        let observed = if f.witness.is_empty() { None } else { check.replay_witness(&ctx, f) };
+        let has_witness = !f.witness.is_empty() || f.raw.get("witness_text").is_some() || f.raw.get("witness_variants").is_some();
+        let observed = if has_witness { check.replay_witness(&ctx, f) } else { None };
         let still = match &observed {
             Some(sig) => sig_matches(&f.signature, sig),
             None => false,
